@@ -234,8 +234,8 @@ def load_corpus():
 
 def run(ctx):
     quick = ctx.tier == "quick"
-    n_hist = 4000 if quick else 300000
-    n_multi, n_witgen = (140, 50) if quick else (5000, 1500)
+    n_hist = 4000 if quick else 200000
+    n_multi, n_witgen = (140, 50) if quick else (4000, 1200)
     ctx.assumptions += [
         "model: HashMap<String,_> as association lists with set semantics (qualify_package never observes iteration order; write_moon_pkg sorts); Ns as in C26 (usize counter as unbounded N)",
         "proved part covers crates/moonbit/src/pkg.rs qualify_package + the (path, alias) pairs write_moon_pkg derives from an Imports value; that every @alias. in the emitted .mbt text comes from a qualify_package call made BEFORE the package's moon.pkg.json is rendered is NOT modelled: it is what the verified checker validates on the real output",
